@@ -477,7 +477,7 @@ func runC09(c C09Case, ev *Evid) (fs []Finding) {
 
 func genDiffPair(t *rapid.T, l Layout, now int64, rel string, glob bool) DiffPair {
 	p := DiffPair{Rel: rel}
-	src := FileSpec{L: l, Writes: genWrites(t, l, now, valGeneral, 10)}
+	src := genSpec(t, l, now, valGeneral, 10)
 	p.Src = &src
 	kind := rapid.IntRange(0, 11).Draw(t, "destKind")
 	switch {
@@ -512,7 +512,7 @@ func genDiffPair(t *rapid.T, l Layout, now int64, rel string, glob bool) DiffPai
 			}
 		}
 	case kind <= 8: // unrelated content, same layout
-		d := FileSpec{L: l, Writes: genWrites(t, l, now, valGeneral, 10)}
+		d := genSpec(t, l, now, valGeneral, 10)
 		p.Dest = &d
 	case kind == 9: // different layout: unrelated, or only a longer last archive (invisible in narrow windows)
 		l2 := genCLILayout(t)
